@@ -198,6 +198,11 @@ func c09Oracle(p *Plan) *Verdict {
 	}
 	// ---- the response itself must be terminated and well-formed
 	payloadFault := p.Note == "resp-bitflip" || p.Note == "req-bitflip"
+	if rp := &rc.Backend.Resp; p.Note == "resp-cut" && len(st.Backend) == 1 && !st.Backend[0].Stream && rp.DeclareCL == "" {
+		// an unframed body without a declared length that stops early is, on the wire, a complete body whose compressed
+		// payload is corrupt: the same thing as a flipped payload bit
+		payloadFault = true
+	}
 	if o.Kind == "invalid" || len(o.Problems) > 0 {
 		side := "request-fault"
 		if respMalformed != "" {
